@@ -638,6 +638,15 @@ void wl_rt_stop(wl_rt *rt)
         if (!rt->joined[e])
             ABT_OK(ABT_xstream_join(rt->xs[e]));
         sim_progress();
+        if (rt->topo == 0) {
+            /* a joined stream whose pools nobody else serves has nothing left, queued or blocked */
+            ABT_sched sc;
+            size_t sz = 99, tot = 99;
+            ABT_OK(ABT_xstream_get_main_sched(rt->xs[e], &sc));
+            ABT_OK(ABT_sched_get_size(sc, &sz));
+            ABT_OK(ABT_sched_get_total_size(sc, &tot));
+            SIM_CHECK(sz == 0 && tot == 0, "join:returned-with-work-left", "after ABT_xstream_join of stream %d its scheduler reports size %zu and total size %zu", e, sz, tot);
+        }
         ABT_OK(ABT_xstream_free(&rt->xs[e]));
         sim_progress();
     }
